@@ -410,18 +410,17 @@ Proof.
   - left. exists d. auto.
 Qed.
 
-Lemma build_config_mirrors shlex rfc base ic created arch dord eord :
+Lemma build_config_core_mirrors shlex rfc base ic created arch dord eord :
   NoDup (akeys (ic_env ic)) ->
   Permutation dord (akeys default_env) ->
   Permutation eord (akeys (with_defaults default_env dord (ic_env ic))) ->
-  match build_config shlex rfc base ic created arch dord eord with
-  | Ok cfg => ConfigMirrors shlex rfc (to_oci_platform arch) base (copy_for_build ic) created cfg
+  match build_config_core shlex rfc base ic created arch dord eord with
+  | Ok cfg => ConfigMirrors shlex rfc (to_oci_platform arch) base ic created cfg
   | Err => shlex_failed shlex ic
   | _ => False
   end.
 Proof.
-  intros NE Pd Pe. unfold build_config. cbn [copy_for_build ic_shell_fragment ic_command ic_cmd ic_workdir
-    ic_run_as ic_stop_signal ic_volumes ic_env ic_annotations ic_vcs_url].
+  intros NE Pd Pe. unfold build_config_core.
   assert (Hep : (exists ep,
              (if nonempty (ic_shell_fragment ic)
               then Ok (shell_entrypoint_prefix ++ [ic_shell_fragment ic])
@@ -448,8 +447,33 @@ Proof.
   - exact Wep.
   - exact W.
   - apply render_env_ok; assumption.
-  - intro k. apply (labels_lookup rfc (copy_for_build ic)).
+  - intro k. apply labels_lookup.
   - destruct (to_oci_platform arch); reflexivity.
+Qed.
+
+Lemma copy_for_build_fields ic :
+  ic_shell_fragment (copy_for_build ic) = ic_shell_fragment ic /\
+  ic_command (copy_for_build ic) = ic_command ic /\
+  ic_cmd (copy_for_build ic) = ic_cmd ic /\
+  ic_env (copy_for_build ic) = ic_env ic.
+Proof. unfold copy_for_build. destruct merge_into_copies_vcs_url; repeat split; reflexivity. Qed.
+
+Lemma build_config_mirrors shlex rfc base ic created arch dord eord :
+  NoDup (akeys (ic_env ic)) ->
+  Permutation dord (akeys default_env) ->
+  Permutation eord (akeys (with_defaults default_env dord (ic_env ic))) ->
+  match build_config shlex rfc base ic created arch dord eord with
+  | Ok cfg => ConfigMirrors shlex rfc (to_oci_platform arch) base (copy_for_build ic) created cfg
+  | Err => shlex_failed shlex ic
+  | _ => False
+  end.
+Proof.
+  intros NE Pd Pe. unfold build_config.
+  destruct (copy_for_build_fields ic) as [F1 [F2 [F3 F4]]].
+  assert (H := build_config_core_mirrors shlex rfc base (copy_for_build ic) created arch dord eord).
+  rewrite F4 in H. specialize (H NE Pd Pe).
+  destruct (build_config_core shlex rfc base (copy_for_build ic) created arch dord eord); try exact H.
+  all: unfold shlex_failed in *; rewrite F1, F2, F3 in H; exact H.
 Qed.
 
 (* the VCS URL has a revision to record *)
@@ -460,7 +484,8 @@ Lemma expected_label_copy rfc ic created k :
   vcs_has_revision ic = false ->
   expected_label rfc (copy_for_build ic) created k = expected_label rfc ic created k.
 Proof.
-  unfold vcs_has_revision, expected_label. cbn [copy_for_build ic_vcs_url ic_annotations].
+  unfold copy_for_build. destruct merge_into_copies_vcs_url; [reflexivity|].
+  unfold vcs_has_revision, expected_label. cbn [erase_vcs ic_vcs_url ic_annotations].
   intro H. change (nonempty "") with false. cbv iota.
   destruct (nonempty (ic_vcs_url ic)); [|reflexivity]. simpl in H.
   apply cut_at_none in H. rewrite H. reflexivity.
@@ -473,7 +498,7 @@ Lemma mirrors_copy shlex rfc plat base ic created cfg :
 Proof.
   intros Hv [He Hc Hw Hu Hs Hvol Henv Hl Hcr Hp Hos].
   constructor; try assumption.
-  intro k. rewrite <- (expected_label_copy rfc ic created k Hv). apply Hl.
+  all: intro k; rewrite <- (expected_label_copy rfc ic created k Hv); apply Hl.
 Qed.
 
 Lemma build_config_mirrors_partial shlex rfc base ic created arch dord eord :
@@ -499,6 +524,7 @@ Definition refuting_ic : image_config :=
      ic_vcs_url := "https://github.com/o/r@abc" |}.
 
 Lemma build_config_mirrors_refuted :
+  merge_into_copies_vcs_url = false ->
   exists shlex rfc base ic created arch dord eord cfg,
     NoDup (akeys (ic_env ic)) /\
     Permutation dord (akeys default_env) /\
@@ -507,11 +533,32 @@ Lemma build_config_mirrors_refuted :
     alookup revision_key (oc_labels cfg) = None /\
     ~ ConfigMirrors shlex rfc (to_oci_platform arch) base ic created cfg.
 Proof.
+  intro Flag.
   exists (fun _ => None), (fun _ => "T"), empty_config, refuting_ic, 0%Z, "amd64",
     (akeys default_env), (akeys (with_defaults default_env (akeys default_env) [])).
-  eexists. split; [constructor|]. split; [reflexivity|]. split; [reflexivity|].
-  split; [vm_compute; reflexivity|]. split; [reflexivity|].
+  exists (match build_config_core (fun _ => None) (fun _ => "T") empty_config (erase_vcs refuting_ic) 0%Z "amd64"
+                  (akeys default_env) (akeys (with_defaults default_env (akeys default_env) [])) with
+          | Ok c => c | _ => empty_config end).
+  split; [constructor|]. split; [reflexivity|]. split; [reflexivity|].
+  split; [unfold build_config, copy_for_build; rewrite Flag; vm_compute; reflexivity|].
+  split; [vm_compute; reflexivity|].
   intros [_ _ _ _ _ _ _ Hl _ _ _]. specialize (Hl revision_key). vm_compute in Hl. discriminate.
+Qed.
+
+Lemma build_config_mirrors_full shlex rfc base ic created arch dord eord :
+  merge_into_copies_vcs_url = true ->
+  NoDup (akeys (ic_env ic)) ->
+  Permutation dord (akeys default_env) ->
+  Permutation eord (akeys (with_defaults default_env dord (ic_env ic))) ->
+  match build_config shlex rfc base ic created arch dord eord with
+  | Ok cfg => ConfigMirrors shlex rfc (to_oci_platform arch) base ic created cfg
+  | Err => shlex_failed shlex ic
+  | _ => False
+  end.
+Proof.
+  intros Flag NE Pd Pe.
+  assert (H := build_config_mirrors shlex rfc base ic created arch dord eord NE Pd Pe).
+  unfold copy_for_build in H. rewrite Flag in H. exact H.
 Qed.
 
 (* the validator decides the specification *)
@@ -616,12 +663,46 @@ Proof.
 Qed.
 
 Lemma bundle_complete_refuted :
+  bundle_key_includes_variant = false ->
   exists ntags archs, ntags <> 0 /\ incl archs all_archs /\ NoDup archs /\
     ~ BundleComplete (bundle_included ntags archs) /\
     bundle_included ntags archs = [false; true].
 Proof.
-  exists 1, ["arm/v6"; "arm/v7"]. split; [discriminate|]. split.
+  intro Flag. exists 1, ["arm/v6"; "arm/v7"]. split; [discriminate|]. split.
   - intros x [<-|[<-|[]]]; vm_compute; tauto.
   - split; [repeat constructor; simpl; intuition discriminate|].
-    split; [|reflexivity]. intro H. inversion H as [|? ? Hb _]. vm_compute in Hb. discriminate.
+    assert (E : bundle_included 1 ["arm/v6"; "arm/v7"] = [false; true]).
+    { unfold bundle_included, bundle_key. rewrite Flag. vm_compute. reflexivity. }
+    split; [|exact E]. rewrite E. intro H. inversion H as [|? ? Hb _]. discriminate.
+Qed.
+
+Lemma nodup_map_inj_on {A B} (f : A -> B) (dom l : list A) :
+  (forall x y, In x dom -> In y dom -> f x = f y -> x = y) ->
+  incl l dom -> NoDup l -> NoDup (List.map f l).
+Proof.
+  intros Inj. induction l as [|x l IH]; simpl; intros Hin ND; [constructor|].
+  inversion ND as [|? ? Nin ND']; subst. constructor.
+  - intro H. apply in_map_iff in H. destruct H as [y [E Hy]].
+    assert (y = x) by (apply Inj; [apply Hin; right; exact Hy|apply Hin; left; reflexivity|exact E]).
+    subst. contradiction.
+  - apply IH; [intros y Hy; apply Hin; right; exact Hy|exact ND'].
+Qed.
+
+Lemma bundle_key_with_variant_injective :
+  forall x y, In x all_archs -> In y all_archs -> bundle_key_with true x = bundle_key_with true y -> x = y.
+Proof.
+  assert (H : forallb (fun x => forallb (fun y =>
+              implb (String.eqb (bundle_key_with true x) (bundle_key_with true y)) (String.eqb x y)) all_archs) all_archs = true)
+    by (vm_compute; reflexivity).
+  rewrite forallb_forall in H. intros x y Hx Hy E. specialize (H x Hx). rewrite forallb_forall in H.
+  specialize (H y Hy). rewrite E, String.eqb_refl in H. simpl in H. apply String.eqb_eq. exact H.
+Qed.
+
+Lemma bundle_complete_full ntags archs :
+  bundle_key_includes_variant = true ->
+  ntags <> 0 -> NoDup archs -> incl archs all_archs -> BundleComplete (bundle_included ntags archs).
+Proof.
+  intros Flag Hn ND Hin. apply bundle_complete_partial; [exact Hn|].
+  unfold bundle_key. rewrite Flag.
+  apply (nodup_map_inj_on _ all_archs); [apply bundle_key_with_variant_injective|exact Hin|exact ND].
 Qed.
